@@ -5,7 +5,8 @@
    usage: driver run   CASES            -> one model value per case
           driver check CASES IMPL_OUT   -> per case: eq cm ci [model value when eq=0]
             eq = model value equals implementation value (Model.val_eqb)
-            cm = Model.check on the model's value, ci = Model.check on the implementation's value *)
+            cm = Model.check on the model's value, ci = Model.check on the implementation's value
+               (0 = property fails, 1 = holds, k >= 2 = known-finding class k) *)
 module M = Model
 open M
 type ostring = Stdlib.String.t
@@ -127,11 +128,11 @@ let () =
         | Some ic ->
             let il = input_line ic in
             let iv = (try Some (parse_val il) with Parse_error _ -> None) in
-            let cm = check op args m in
-            let (eq, ci) = (match iv with Some v -> (val_eqb m v, check op args v) | None -> (false, false)) in
+            let cm = int_of_n (check op args m) in
+            let (eq, ci) = (match iv with Some v -> (val_eqb m v, int_of_n (check op args v)) | None -> (false, 0)) in
             Buffer.add_string out (if eq then "1" else "0"); Buffer.add_char out '\t';
-            Buffer.add_string out (if cm then "1" else "0"); Buffer.add_char out '\t';
-            Buffer.add_string out (if ci then "1" else "0");
+            Buffer.add_string out (string_of_int cm); Buffer.add_char out '\t';
+            Buffer.add_string out (string_of_int ci);
             if not eq then (Buffer.add_char out '\t'; print_val out m);
             Buffer.add_char out '\n');
        if Buffer.length out > 60000 then flush_out ()
